@@ -35,6 +35,7 @@ type Harness struct {
 	NoReplayWhy string
 	NoReplayStubbed bool
 	Lazy     bool
+	PoolReuse bool
 	Timeout  time.Duration
 	Quick    EntryOpts
 	Thorough EntryOpts
@@ -117,6 +118,8 @@ func ParseHarness(file string) (*Harness, error) {
 			h.Solver = fs[1]
 		case "noreplay-stubbed": // entries that hit a //verif:stub are not replayed natively
 			h.NoReplayStubbed = true
+		case "poolreuse":
+			h.PoolReuse = true
 		case "lazyfp":
 			h.Lazy = true
 		case "noreplay":
